@@ -19,7 +19,7 @@ ASSUMPTIONS = [
     "spectral comparisons at 1e-9 of the spectrum maximum; small well-conditioned column (G < 8)",
 ]
 MIN_NONTRIVIAL = {"quick": 400, "thorough": 5000}
-TIMEOUT = {"quick": 900, "thorough": 3000}
+TIMEOUT = {"quick": 900, "thorough": 7000}
 HALOS = ("zero", "none", "0.7dx", "1.6dx", "2dx")
 SIZES = range(4, 10)
 MODES = range(2, 13, 2)
